@@ -814,6 +814,8 @@ class Interp:
             if isinstance(base, It) and isinstance(ix, int):
                 val[i] = self.deref_it(It(base.vec, base.idx + ix, base.gen), fn, e)
                 return
+            if isinstance(base, Ptr) and base.rec is None and isinstance(ix, int):
+                raise Violation('a null pointer is subscripted (element %d of a block that was never allocated)' % ix, fn.loc(e))
             self.broken(fn, e, 'subscript of a %s by a %s' % (type(base).__name__, type(ix).__name__))
         if k == 'ConditionalOperator':
             arms = [x for x in c[1:3] if isinstance(x, int) and x in val]
